@@ -4,6 +4,7 @@ import NSG.Model.World
 import NSG.Model.Defender
 import NSG.Model.Coord
 import NSG.Model.Codec
+import NSG.Model.Config
 /-!
 Line-protocol driver: one JSON object per input line, one JSON object per output line.
 Only executable model definitions are used here; nothing is defaulted - an unknown op or a
@@ -262,6 +263,59 @@ def jval (j : Json) : R Val := do
   let nets ← jlist (jpair jstr jint) (← jfield j "valid_nets")
   return { ip := fun s => ips.contains s, net := fun a m => nets.contains (a, m) }
 
+-- configuration --------------------------------------------------------------------------------
+open NSG.Config in
+partial def toY (j : Json) : R Y :=
+  match j with
+  | .null => return .null
+  | .bool b => return .bool b
+  | .num n => if n.exponent = 0 then return .int n.mantissa else throw "non-integer number"
+  | .str s => return .str s
+  | .arr a => do return .list (← a.toList.mapM toY)
+  | .obj o => do return .map (← (o.toList.map (fun p => (p.1, p.2))).mapM (fun p => do return (p.1, ← toY p.2)))
+
+def jsnet (j : Json) : R (String × Int) := jpair jstr jint j
+
+open NSG.Config in
+def jcval (j : Json) : R NSG.Config.Val := do
+  let ips ← jlist jstr (← jfield j "valid_ips")
+  let nets ← jlist (jpair jstr jsnet) (← jfield j "valid_nets")
+  return { ip := fun s => ips.contains s, net := fun s => (nets.map (·.1)).contains s,
+           split := fun s => (nets.find? (fun p => p.1 = s)).map (·.2) }
+
+open NSG.Config in
+def jworldinfo (j : Json) : R WorldInfo := do
+  let sh ← jlist jstr (← jfield j "startHosts")
+  let lh ← jlist jstr (← jfield j "localHosts")
+  let no ← jlist (jpair jstr (jlist jsnet)) (← jfield j "netsOf")
+  let pr ← jlist jsnet (← jfield j "private")
+  let nb ← jlist (jpair jsnet (jlist jsnet)) (← jfield j "neighbours")
+  return { startHosts := sh, localHosts := lh,
+           netsOf := fun h => ((no.find? (fun p => p.1 = h)).map (·.2)).getD [],
+           isPrivate := fun n => pr.contains n,
+           neighbours := fun n => ((nb.find? (fun p => p.1 = n)).map (·.2)).getD [] }
+
+def osnet (n : String × Int) : Json := Json.arr #[Json.str n.1, oint n.2]
+
+def ohostitem : NSG.Config.HostItem → Json
+  | .ip a => Json.str a
+  | .random => Json.str "random"
+  | .allLocal => Json.str "all_local"
+
+def osection (s : NSG.Config.Section) : Json := Json.mkObj [
+  ("nets", olist osnet s.nets), ("known", olist ohostitem s.known), ("controlled", olist ohostitem s.controlled),
+  ("data", olist (fun (p : String × List (String × String)) => Json.arr #[Json.str p.1, olist (fun (d : String × String) => Json.arr #[Json.str d.1, Json.str d.2]) p.2]) s.data)]
+
+def osettings (s : NSG.Config.Settings) : Json := Json.mkObj [
+  ("maxStepsAttacker", oopt oint s.maxStepsAttacker), ("maxStepsDefender", oopt oint s.maxStepsDefender),
+  ("rStep", oint s.rStep), ("rSuccess", oint s.rSuccess), ("rFail", oint s.rFail), ("required", oint s.required),
+  ("firewall", s.firewall), ("dynamic", s.dynamic), ("defender", s.defender), ("saveTraj", s.saveTraj)]
+
+def oiview (v : NSG.Config.IView) : Json := Json.mkObj [
+  ("nets", olist osnet v.nets), ("known", olist (fun (s : String) => Json.str s) v.known),
+  ("controlled", olist (fun (s : String) => Json.str s) v.controlled),
+  ("data", olist (fun (p : String × List (String × String)) => Json.arr #[Json.str p.1, olist (fun (d : String × String) => Json.arr #[Json.str d.1, Json.str d.2]) p.2]) v.data)]
+
 -- state ----------------------------------------------------------------------------------------
 structure DState where
   world : World := default
@@ -343,6 +397,20 @@ def handle (st : DState) (j : Json) : R (DState × Json) := do
     match NSG.Codec.viewFromDict x with
     | none => return (st, Json.mkObj [("ok", false)])
     | some v => return (st, Json.mkObj [("ok", true), ("j", ofJ (NSG.Codec.viewAsDict v))])
+  | "config" =>
+    let V ← jcval j
+    let cfg ← toY (← jfield j "cfg")
+    let sec := fun (role kind : String) => osection (NSG.Config.readSection V cfg role kind)
+    return (st, Json.mkObj [("settings", osettings (NSG.Config.readSettings cfg)),
+      ("Attacker", Json.mkObj [("goal", sec "Attacker" "goal"), ("start_position", sec "Attacker" "start_position")]),
+      ("Defender", Json.mkObj [("goal", sec "Defender" "goal"), ("start_position", sec "Defender" "start_position")])])
+  | "initview" =>
+    let V ← jcval j
+    let cfg ← toY (← jfield j "cfg")
+    let W ← jworldinfo (← jfield j "world")
+    let role ← jstr (← jfield j "role")
+    let picks ← jlist jstr (← jfield j "picks")
+    return (st, Json.mkObj [("view", oiview (NSG.Config.initialView W (NSG.Config.readSection V cfg role "start_position") picks))])
   | "goal" =>
     let g ← jgoal (← jfield j "goal")
     let v ← jview (← jfield j "view")
